@@ -4,3 +4,4 @@ import KoalaVerif.Model.Flux
 import KoalaVerif.Model.Tables
 import KoalaVerif.Model.Cnf
 import KoalaVerif.Model.Tree
+import KoalaVerif.Model.Solver
